@@ -1,6 +1,7 @@
 import EgVerif.Proofs.MuxCache
 import EgVerif.Spec.MuxCache
 import EgVerif.Gen.FactsC12
+import EgVerif.Proofs.MuxSearchIR
 /-!
 # C12 — the route cache is transparent
 
@@ -128,6 +129,113 @@ theorem spec_accepts_model (known : String → Bool) (rw : PathEntry → String 
   rw [cache_transparent_obs (obsOf known rw) o c strip ev reqs hw]
   simp [specOK]
 
+/-! ## Reloads (Extension mux): transparency over histories of requests *and* in-place reloads
+
+`Op = request q | reload g`; `reload` installs the new configuration with a fresh cache
+(`MuxCache.reload`, mirroring `mux.reload`'s `lru.NewARC`). `refOps` answers every request with the
+cache-less search under the configuration current when it is served. -/
+
+/-- **C12 across reloads**: for every history of requests and reloads (any configurations, with or
+without a cache in any generation), every eviction behaviour and every oracle, each response of the
+mux equals the cache-less search under the configuration current at that point. -/
+theorem cache_transparent_across_reloads (o : Oracle) (strip : String → String) (ev : Nat → Key → Bool)
+    (ops : List Op) (hw : OpsWF strip ops) :
+    runOps o ev 0 newMux ops = refOps o {} ops :=
+  runOps_eq o strip ev ops 0 newMux hw (instInv_newMux o strip)
+
+/-- The same from any published instance whose cache satisfies the invariant for *its own*
+configuration — in particular from any instance reached by a history (`inst_inv_across_reloads`). -/
+theorem cache_transparent_across_reloads_from (o : Oracle) (strip : String → String)
+    (ev : Nat → Key → Bool) (n : Nat) (i : Inst) (ops : List Op) (hw : OpsWF strip ops)
+    (inv : InstInv o strip i) : runOps o ev n i ops = refOps o i.cfg ops :=
+  runOps_eq o strip ev ops n i hw inv
+
+/-- The instance published after serving `ops`. -/
+def instAfter (o : Oracle) (ev : Nat → Key → Bool) : Nat → Inst → List Op → Inst
+  | _, i, [] => i
+  | n, _, .reload g :: ops => instAfter o ev n (reload g) ops
+  | n, i, .request q :: ops => instAfter o ev (n + 1) (i.search o (ev n) q).2 ops
+
+/-- **Invariant over histories with reloads**: the cache of the instance published after any history
+answers every request with a cached key as the cache-less search does *under that instance's own
+configuration* — a reload never leaves entries of an earlier generation behind. -/
+theorem inst_inv_across_reloads (o : Oracle) (strip : String → String) (ev : Nat → Key → Bool) :
+    ∀ (ops : List Op) (n : Nat) (i : Inst), OpsWF strip ops → InstInv o strip i →
+      InstInv o strip (instAfter o ev n i ops) ∧ (instAfter o ev n i ops).cfg = cfgAfter i.cfg ops
+  | [], _, _, _, inv => ⟨inv, rfl⟩
+  | .reload g :: ops, n, _, hw, _ => by
+    simp only [instAfter, cfgAfter]
+    exact inst_inv_across_reloads o strip ev ops n (reload g) (fun q h => hw q (List.mem_cons_of_mem _ h))
+      (instInv_reload o strip g)
+  | .request q :: ops, n, i, hw, inv => by
+    obtain ⟨_, h2, h3⟩ := instSearch_step o strip (ev n) i q (hw q List.mem_cons_self) inv
+    simp only [instAfter, cfgAfter]
+    rw [← h2]
+    exact inst_inv_across_reloads o strip ev ops (n + 1) _ (fun q' h => hw q' (List.mem_cons_of_mem _ h)) h3
+
+/-- **History independence across reloads**: the answer to a request depends only on the request and
+on the configuration installed by the last reload before it — not on the requests, reloads, caches or
+evictions before. -/
+theorem history_independent_across_reloads (o : Oracle) (strip : String → String)
+    (ev : Nat → Key → Bool) (pre : List Op) (q : Req) (hp : OpsWF strip pre) (hq : WF strip q) :
+    (runOps o ev 0 newMux (pre ++ [.request q])).getLast? = some (search o (cfgAfter {} pre) q) := by
+  have hw : OpsWF strip (pre ++ [.request q]) := by
+    intro x hx
+    rcases List.mem_append.mp hx with h | h
+    · exact hp x h
+    · simp only [List.mem_singleton, Op.request.injEq] at h; subst h; exact hq
+  rw [cache_transparent_across_reloads o strip ev _ hw]
+  simp [refOps, reqCfgs_append, reqCfgs]
+
+/-- Two histories that end in the same configuration answer the same last request identically, whatever
+else differs (other requests, other earlier generations, other eviction behaviour). -/
+theorem history_independent_across_reloads' (o : Oracle) (strip : String → String)
+    (ev ev' : Nat → Key → Bool) (pre pre' : List Op) (q : Req) (hp : OpsWF strip pre)
+    (hp' : OpsWF strip pre') (hq : WF strip q) (hc : cfgAfter {} pre = cfgAfter {} pre') :
+    (runOps o ev 0 newMux (pre ++ [.request q])).getLast? =
+      (runOps o ev' 0 newMux (pre' ++ [.request q])).getLast? := by
+  rw [history_independent_across_reloads o strip ev pre q hp hq,
+    history_independent_across_reloads o strip ev' pre' q hp' hq, hc]
+
+/-- Observables across reloads: any function of (route, request) — status, backend, rewritten path. -/
+theorem cache_transparent_across_reloads_obs {α : Type} (obs : Route → Req → α) (o : Oracle)
+    (strip : String → String) (ev : Nat → Key → Bool) (ops : List Op) (hw : OpsWF strip ops) :
+    List.zipWith obs (runOps o ev 0 newMux ops) ((reqCfgs {} ops).map (·.2)) =
+      (reqCfgs {} ops).map (fun p => obs (search o p.1 p.2) p.2) := by
+  rw [cache_transparent_across_reloads o strip ev ops hw, refOps]
+  generalize reqCfgs {} ops = l
+  induction l with
+  | nil => rfl
+  | cons p ps ih => simp [ih]
+
+/-! ### Witness: a reload that kept the previous cache would not be transparent
+
+Server filter 0 blocks `10.0.0.1`; generation 1 has no server filter, generation 2 (same rules, same
+cache size) has it. With the cache carried over (`runOpsKeep`) the blocked client is still served from
+the entry cached in generation 1 — the seeded change C05-m4. -/
+
+open EgVerif.C12w in
+
+theorem kept_cache_across_reload_not_transparent :
+    runOpsKeep oR (fun _ _ => false) 0 newMux histR
+      ≠ refOps oR {} histR := by decide
+
+open EgVerif.C12w
+
+/-- Non-vacuity: on that history the model's second generation really starts with an empty cache, the
+first generation had both keys resident, and the model agrees with the reference (403, 403). -/
+example : runOps oR (fun _ _ => false) 0 newMux histR
+    = [.path 0 0 { path := "/x", backend := "p1" }, .code 404, .code 403, .code 403] := by decide
+example : runOpsKeep oR (fun _ _ => false) 0 newMux histR
+    = [.path 0 0 { path := "/x", backend := "p1" }, .code 404, .path 0 0 { path := "/x", backend := "p1" }, .code 404] := by decide
+example : residentOps (⟨fun _ _ => false, fun _ _ => true⟩) (fun _ _ => false) 0 newMux
+    [.reload ⟨cfgR1, true⟩, .request (qR "1"), .request (qR "2"), .reload ⟨cfgR1, true⟩, .request (qR "3"), .request (qR "4")]
+    = [false, true, false, true] := by decide
+example : OpsWF id histR := by
+  intro q h
+  simp only [histR, List.mem_cons, List.not_mem_nil, or_false, Op.request.injEq, reduceCtorEq, false_or] at h
+  rcases h with rfl | rfl | rfl | rfl <;> rfl
+
 /-! ## Witnesses: the four defects of the code before the repair, and non-vacuity
 
 One oracle for all: no regexps; filter 0 blocks `10.0.0.1`. -/
@@ -195,24 +303,57 @@ theorem key_shape :
     FactsC12.keyExprGet = "routeCacheKey{req.Host(), req.Method(), req.Path()}" ∧
     FactsC12.keyFields = ["host string", "method string", "path string"] := by decide
 
-/-- `search` looks the cache up once and has the three put sites of the model: the path
-(guarded by "no headers and no header mismatch so far"), the 405 and the 404, each carrying the
-consulted filters. -/
+/-- `search` looks the cache up once and has three `putRouteToCache` call sites. *What* is put under
+*which* guard (the path while no header mismatch was seen, the 405, the 404, each with the consulted
+filters) is no longer pinned as source text here (`FactsC12.putArgs` / `putGuards` are still generated
+for the reader): since Extension mux it is proved semantically by `search_regenerated_from_source`
+below, which survives renamings. -/
 theorem put_sites :
-    FactsC12.searchGetCalls = 1 ∧ FactsC12.searchPutCalls = 3 ∧
-    FactsC12.putArgs = ["r", "&route{code: methodNotAllowed.code, ipFilters: consulted}",
-      "&route{code: notFound.code, ipFilters: consulted}"] ∧
-    FactsC12.putGuards = ["len(path.headers) == 0 && !headerMismatch", "methodMismatch", ""] := by decide
+    FactsC12.searchGetCalls = 1 ∧ FactsC12.searchPutCalls = 3 := by decide
 
-/-- Every IP check of `search` goes through the recording closure `allow` (three sites: server, rule,
-path), and the hit branch re-checks exactly the recorded list. -/
+/-- A `route` carries the consulted filters. That every IP check of `search` goes through the recording
+closure and that the hit branch re-checks exactly the recorded list is `search_regenerated_from_source`
+/ `search_hit_regenerated_from_source` (the former textual facts `searchAllowCalls`, `hitBranch` are
+still generated, but no longer pinned: they broke on a mere renaming of `allow` / `consulted`). -/
 theorem ip_checks_recorded :
-    FactsC12.searchAllowCalls = 3 ∧ FactsC12.searchAllowIPCalls = 1 ∧
-    "ipFilters []*ipfilter.IPFilter" ∈ FactsC12.routeFields ∧
-    FactsC12.hitBranch = "{ for _, f := range r.ipFilters { if !f.Allow(ip) { return forbidden } } return r }" := by
+    "ipFilters []*ipfilter.IPFilter" ∈ FactsC12.routeFields := by
   decide
 
 /-- One fresh cache per generation (`runCached` starts from the empty cache). -/
 theorem one_cache_per_generation : FactsC12.reloadNewARCCalls = 1 := by decide
+
+/-- `mux.reload` gives the new instance a cache from exactly one source, a freshly created ARC, and never
+reads a `.cache` field (the previous instance's cache is not carried over): `MuxCache.reload`. -/
+theorem fresh_cache_per_generation :
+    FactsC12.reloadCacheSources = ["lru.NewARC(int(spec.CacheSize))"] ∧
+    FactsC12.reloadCacheReads = [] := by decide
+
+/-! ## Regenerated tie by translation (`notes/IR.md`, Extension mux)
+
+`Gen.FactsMuxIR.searchIR o c q cached` is re-translated on every run from the current body of
+`muxInstance.search` (go/ast → Lean, `harness/factextract/irlib.go`; `cached` = what `getRouteFromCache`
+returned, second component = the route handed to `putRouteToCache`). Proofs: `Proofs/MuxSearchIR.lean`. -/
+
+/-- **Miss path**: with no cached route the generated definition returns the model's `searchMiss` — the
+route *and* the put (which route, under which guard, with which consulted filters), through the Go view
+of routes (`routeGo` / `CRoute.go`). -/
+theorem search_regenerated_from_source (o : Oracle) (c : Cfg) (q : Req) :
+    Gen.FactsMuxIR.extractionFailed = false ∧
+    Gen.FactsMuxIR.searchIR o c q none = (routeGo (searchMiss o c q).1, (searchMiss o c q).2.map CRoute.go) :=
+  ⟨by decide, MuxCache.search_regenerated_from_source o c q⟩
+
+/-- **Hit branch**: with a cached route the generated definition is the model's `hit` (re-check exactly the
+recorded filters, else 403) and puts nothing. -/
+theorem search_hit_regenerated_from_source (o : Oracle) (c : Cfg) (q : Req) (r : CRoute) :
+    Gen.FactsMuxIR.extractionFailed = false ∧
+    Gen.FactsMuxIR.searchIR o c q (some r.go) = (routeGo (hit o r q), none) :=
+  ⟨by decide, MuxCache.search_regenerated_from_source_hit o c q r⟩
+
+/-- `CRoute.go` loses nothing the hit branch reads: route (up to indices) and filter list are recovered. -/
+theorem go_faithful (r r' : CRoute) (h : r.go = r'.go) :
+    routeGo r.route = routeGo r'.route ∧ r.filters = r'.filters := by
+  simp only [CRoute.go, GoRoute.mk.injEq] at h
+  obtain ⟨h1, h2, h3⟩ := h
+  exact ⟨Prod.ext h1 h2, (List.map_inj_right (fun _ _ h => Option.some.inj h)).mp h3⟩
 
 end EgVerif.C12
